@@ -1,5 +1,55 @@
 import Asn1Verif.Base.Text
-/- line protocol, stream `inttype` — not implemented yet -/
+import Asn1Verif.Codegen.IntType
+/-
+  line protocol, stream `inttype` (C15)
+
+  request  `inttype <min|none> <max|none> <0|1 extensible>`
+  answer   `ok <variant> <stored min|none> <stored max|none> <ext> field=<ty> fn=<ty>:<min>:<max>
+               attr=<text inside integer(..)> const=<ty>:<MIN>:<MIN_T>:<MAX>:<MAX_T>:<EXTENSIBLE>`
+           | `err resolve`   (a bound that is not an `i64` literal is taken for a value reference,
+                              which does not exist in the one-type module)
+-/
 namespace Driver.InttypeStream
-def handle (_args : List String) : String := "bad-op"
+open Asn1Verif Asn1Verif.Text Asn1Verif.Codegen.IntType
+
+/-- optionally signed decimal number of any size, or `none` -/
+def parseBound (s : String) : Option (Option Int) :=
+  if s = "none" then some none
+  else
+    let cs := s.toList
+    let ds := match cs with | '-' :: r => r | r => r
+    if ds.isEmpty ∨ ¬ ds.all Char.isDigit then none
+    else
+      let n : Nat := ds.foldl (fun acc c => acc * 10 + (c.toNat - 48)) 0
+      some (some (match cs with | '-' :: _ => -(n : Int) | _ => (n : Int)))
+
+def optStr (o : Option Int) : String :=
+  match o with
+  | some v => toString v
+  | none => "none"
+
+def isI64 (o : Option Int) : Bool :=
+  match o with
+  | none => true
+  | some v => decide (InI64 v)
+
+def renderTy (t : IntTy) : String :=
+  let n := t.kind.name
+  let e := boolStr t.ext
+  "ok " ++ n ++ " " ++ optStr t.stored.1 ++ " " ++ optStr t.stored.2 ++ " " ++ e ++
+  " field=" ++ n ++
+  " fn=" ++ n ++ ":" ++ toString t.fnMin ++ ":" ++ toString t.fnMax ++
+  " attr=" ++ t.attrText ++
+  " const=" ++ n ++ ":" ++ optStr t.constMin ++ ":" ++ optStr t.constMin ++ ":" ++
+    optStr t.constMax ++ ":" ++ optStr t.constMax ++ ":" ++ e
+
+def handle (args : List String) : String :=
+  match args with
+  | [mn, mx, ext] =>
+    match parseBound mn, parseBound mx, parseBool ext with
+    | some mn, some mx, some ext =>
+      if isI64 mn && isI64 mx then renderTy (choose mn mx ext) else "err resolve"
+    | _, _, _ => "bad-op"
+  | _ => "bad-op"
+
 end Driver.InttypeStream
